@@ -1,5 +1,4 @@
 import WK.Proofs.C06_Step
-import WK.Gen.C06
 /-
   C06 — Channel runtime state machine keeps watermark and reply invariants.
 
@@ -252,17 +251,6 @@ theorem c06_unguarded_ack_breaks_invariant :
       [.setMeta ⟨1, 1, 1, 1, 1, [1, 2], [1, 2], 1, 2⟩]).1
     Inv s ∧ ¬ ((applyFollowerAck s 2 9).1.hw ≤ (applyFollowerAck s 2 9).1.leo) := by
   refine ⟨c06_inv_run (c06_inv_init 1 0 0 0 (by decide) (by decide)) _, ?_⟩
-  decide
-
-/-- T tie: the only calls of ApplyFollowerAck in pkg/channel (outside tests) are the three
-    reactor entry points the model mirrors, each dominated by a rejection of its own
-    offset against rc.state.LEO (`>` for the two progress paths, `!=` for the stopped ack).
-    `WK.Gen.C06.ackSites` is regenerated from the source on every check. -/
-theorem c06_ack_call_sites_guarded :
-    WK.Gen.C06.ackSites.map (fun a => (a.file, a.fn, a.arg, a.guard)) =
-      [("pkg/channel/reactor/leader_replication.go", "applyLeaderProgressAck", "req.MatchOffset", "gt"),
-       ("pkg/channel/reactor/leader_replication.go", "applyLeaderPullAckOffset", "req.AckOffset", "gt"),
-       ("pkg/channel/reactor/leader_replication.go", "handleLeaderAck", "event.Ack.MatchOffset", "ne")] := by
   decide
 
 -- ------------------------------------------------------------- non-vacuity
